@@ -15,6 +15,8 @@ RULE = ('graphs = C05 family (<=n containers, all aliasing, self/mutual cycles);
         'child, fresh temporary, two temporaries in a row, locals(), failing expression}; budgets = {1000, 4, 2}; k in {1,2} tracepoints; '
         'non-trivial = the graph has sharing or a cycle, or a watch aliases collected data, or the budget was hit'
         ' ; watch values of 9..1001 entries the frame collection did not reach x {dict, lists, object} x 3 watch lists; deferred snapshots whose recorded objects are released before completion (3 program shapes x method/line capture) and values computed on demand (cells / floats x watch / all_frame)')
+RULE_ADDED = "rounds 4-5: fault enumeration of the walk (E4): every call of fn.process_variable, fn.process_child_nodes, fn.safe_str, m.process_variable, m.new_var_id (after), m.append_variable fails in turn x 5 watch lists; a watch reaching the agent's own copy of the frame variables"
+RULE = RULE + ' ; ' + RULE_ADDED
 ASSUMPTIONS = ['set children are compared as multisets', 'the extra table entry for the frame\'s locals mapping itself is allowed']
 
 WATCHSETS = ['none', 'same', 'alias', 'temp', 'two_temps', 'locals', 'failing']
